@@ -896,6 +896,12 @@ func Run(c *Case, props map[string]bool) (res Result) {
 					checkMin("the update that added it", fresh, liveBefore)
 				}
 			}
+			newDelayOnly := map[string]bool{} // created by this update, with a switching delay and no recovery timeout
+			for name, meo := range o.MultiEndpoints {
+				if _, existed := w.mes[name]; !existed && meo.RecoveryTimeout <= 0 && meo.SwitchingDelay > 0 {
+					newDelayOnly[name] = true
+				}
+			}
 			w.mes, w.def = model, def
 			w.dups = w.pendingDups
 			w.noteTimers(o)
@@ -914,7 +920,20 @@ func Run(c *Case, props map[string]bool) (res Result) {
 			// MultiEndpoints whose top up endpoint's pool was kept route correctly at once
 			for n, l := range model {
 				t := topUp(l, w.up)
-				if t == "" || op.Flip > 0 || w.delayed[n] || w.dups[n] || !keptOpen[t] || !readyBefore[t] || w.dialed[t][len(w.dialed[t])-1].GetState() != connectivity.Ready {
+				// (a MultiEndpoint with timers may lag behind on purpose - except one that this very call created with a switching
+				// delay only: it has no history, so what it hears first about pools that were READY all along is their state)
+				if newDelayOnly[n] {
+					for _, e := range l {
+						if !keptOpen[e] || !readyBefore[e] || w.dialed[e][len(w.dialed[e])-1].GetState() != connectivity.Ready {
+							delete(newDelayOnly, n)
+							break
+						}
+					}
+					if newDelayOnly[n] {
+						w.labels["new-multiendpoint-with-switching-delay-checked-at-once"]++
+					}
+				}
+				if t == "" || op.Flip > 0 || (w.delayed[n] && !newDelayOnly[n]) || w.dups[n] || !keptOpen[t] || !readyBefore[t] || w.dialed[t][len(w.dialed[t])-1].GetState() != connectivity.Ready {
 					continue
 				}
 				// an unreachable endpoint of higher priority whose pool has not noticed yet still counts as connected for the
